@@ -359,4 +359,66 @@ Proof.
   eapply same_or_none_some; eauto.
 Qed.
 
+
+(* ---- which actions a statement can emit (syntactically) ---- *)
+Definition act_eqb (x y : act) : bool :=
+  match x, y with
+  | AAcq l w, AAcq l' w' => Nat.eqb l l' && Bool.eqb w w'
+  | ARel l, ARel l' => Nat.eqb l l'
+  | AAcc g, AAcc g' => Nat.eqb g g'
+  | _, _ => false
+  end.
+
+Lemma act_eqb_refl x : act_eqb x x = true.
+Proof. destruct x; cbn; rewrite ?Nat.eqb_refl, ?Bool.eqb_reflx; reflexivity. Qed.
+
+Fixpoint mentions (a : act) (s : stmt) : bool :=
+  match s with
+  | Acq l w => act_eqb a (AAcq l w)
+  | Rel l => act_eqb a (ARel l)
+  | Access g => act_eqb a (AAcc g)
+  | Seq x y | If x y | IfP _ x y => mentions a x || mentions a y
+  | Loop x | Catch x => mentions a x
+  | _ => false
+  end.
+
+Lemma run_stmt_mentions (callr : list (option bool) -> nat -> list act -> Prop) (penv : list (option bool)) (a : act) :
+  (forall args f p, callr args f p -> ~ In a p) ->
+  forall s p k, run_stmt callr penv s p k -> mentions a s = false -> ~ In a p.
+Proof.
+  intros Hc s p k Hr.
+  induction Hr as [ | l w | l | g | f args p Hcall | x y p k Hx IHx Hk | x y p q k Hx IHx Hy IHy
+                  | x y p k Hx IHx | x y p k Hy IHy | i x y p k Hi Hx IHx | i x y p k Hi Hy IHy
+                  | b | b p q k k1 Hb IHb Hk1 Hl IHl | b p Hb IHb | b p Hb IHb
+                  | x p Hx IHx | x p k Hx IHx Hk | | | ]; cbn [mentions]; intros Hm.
+  - intros [].
+  - intros [<-|[]]. rewrite act_eqb_refl in Hm. discriminate.
+  - intros [<-|[]]. rewrite act_eqb_refl in Hm. discriminate.
+  - intros [<-|[]]. rewrite act_eqb_refl in Hm. discriminate.
+  - eapply Hc; eauto.
+  - apply orb_false_iff in Hm as [Hm1 Hm2]. apply IHx. exact Hm1.
+  - apply orb_false_iff in Hm as [Hm1 Hm2]. intro Hin. apply in_app_or in Hin as [Hin|Hin]; [exact (IHx Hm1 Hin)|exact (IHy Hm2 Hin)].
+  - apply orb_false_iff in Hm as [Hm1 Hm2]. apply IHx. exact Hm1.
+  - apply orb_false_iff in Hm as [Hm1 Hm2]. apply IHy. exact Hm2.
+  - apply orb_false_iff in Hm as [Hm1 Hm2]. apply IHx. exact Hm1.
+  - apply orb_false_iff in Hm as [Hm1 Hm2]. apply IHy. exact Hm2.
+  - intros [].
+  - intro Hin. apply in_app_or in Hin as [Hin|Hin]; [exact (IHb Hm Hin)|exact (IHl Hm Hin)].
+  - apply IHb. exact Hm.
+  - apply IHb. exact Hm.
+  - apply IHx. exact Hm.
+  - apply IHx. exact Hm.
+  - intros [].
+  - intros [].
+  - intros [].
+Qed.
+
+Lemma run_call_mentions a fuel : (forall f s, body f = Some s -> mentions a s = false) ->
+  forall args f p, run_call fuel args f p -> ~ In a p.
+Proof.
+  intros Hb. induction fuel as [|fu IH]; intros args f p Hr; [contradiction|].
+  cbn [run_call] in Hr. destruct Hr as (s & k & Hbf & Hrun & _).
+  eapply run_stmt_mentions; [exact IH|exact Hrun|eapply Hb; exact Hbf].
+Qed.
+
 End Lang.
